@@ -20,6 +20,8 @@
                                    variants: the one-shot port callbacks of the snapshot)
      device (env)  DevAnswer       serve the oldest received request, emit the reply
                    DevNotify(n)    change a value, emit an unsolicited value-changed packet
+     link (env)    DevDup(i)       deliver a second copy of the answer down[i] (what a retransmitting link does
+                                   when a reply is late) -- at any later point
 
    Not modelled: the connection phase (TOC download, extended types, first fetch of all values) -- the
    real code runs it before every recorded execution; its extended-type outcome is judged by the
@@ -34,6 +36,8 @@
          "cmdOnly"  pre-fix: the callback is registered as a one-shot port callback at call time and
                     matches on channel and command byte only
          "cmdId"    pre-fix variant matching on command byte and parameter index (a partial repair)
+         "noReset"  the read/write branch of _new_packet_cb does not reset _lock_pattern after a match:
+                    a duplicated reply matches again                  (sensitivity; seeded change m3)
          "noWait"   the updater does not wait for wait_lock          (sensitivity)
          "lifo"     the updater takes the newest request first       (sensitivity)
          "wrap"     out-of-range integers are wrapped, not refused   (sensitivity)
@@ -49,6 +53,11 @@ CONSTANTS Cfg0,       \* [np, type, ro, pers, group, init, updcbs (ParamProtoPro
           MaxOps,     \* total number of API calls
           Notifs,     \* set of [p, v] unsolicited notifications
           MaxNotif,
+          MaxDup,          \* number of duplicated answers
+          DistinctPatterns,\* TRUE: no two requests of a behaviour share a release pattern (read/write: the index;
+                           \* misc: command + index).  Duplicates are only meaningful then: the protocol has no
+                           \* sequence numbers, a second copy of an old answer is indistinguishable from the
+                           \* answer to a later request with the same pattern.
           Bug,
           OneQueryPerCmd   \* TRUE: users never have two queries of the same misc command pending
 
@@ -67,11 +76,11 @@ VARIABLES cf,                             \* the configuration (never changes; a
           inq,                            \* link.in_queue (emitted, not yet dispatched)
           dpc, snap, dpk, dcb,            \* dispatcher (dcb: reply callback taken, to be called after the release)
           cache,                          \* Param.values (typed bytes)
-          nextRid, nnotif,
+          nextRid, nnotif, ndup,
           calls, issued, wire, down, rxs, gots     \* history (ParamProtoProps)
 
 vars == <<cf, ust, ucur, oneShots, reqQ, upc, cur, waitLock, lockPat, replyCb, dcb, devq, dval, dstored, inq,
-          dpc, snap, dpk, cache, nextRid, nnotif, calls, issued, wire, down, rxs, gots>>
+          dpc, snap, dpk, cache, nextRid, nnotif, ndup, calls, issued, wire, down, rxs, gots>>
 
 NoReq == [rid |-> 0, chan |-> 0, data |-> <<>>]
 NoCb == [cmd |-> 0, p |-> 0, rid |-> 0]
@@ -90,7 +99,7 @@ Init ==
     /\ inq = <<>>
     /\ dpc = "recv" /\ snap = <<>> /\ dpk = [chan |-> 0, data |-> <<>>]
     /\ cache = cf.init
-    /\ nextRid = 1 /\ nnotif = 0
+    /\ nextRid = 1 /\ nnotif = 0 /\ ndup = 0
     /\ calls = <<>> /\ issued = <<>> /\ wire = <<>> /\ down = <<>> /\ rxs = <<>> /\ gots = <<>>
 
 \* ------------------------------------------------------------------ users
@@ -114,8 +123,16 @@ PacketOf(op) ==
       [] op.k = "read" -> [chan |-> 1, data |-> P!IdBytes(op.p)]
       [] OTHER -> [chan |-> 3, data |-> <<P!CmdOf(op.k)>> \o P!IdBytes(op.p)]
 
+LockPatOf(r) == IF r.chan = 3 THEN SubSeq(r.data, 1, 3) ELSE SubSeq(r.data, 1, 2)
+FreshPattern(op) ==
+    IF ExcOf(op) # "" \/ op.k = "get" THEN TRUE
+    ELSE LET lp == LockPatOf(PacketOf(op)) IN
+         /\ \A i \in DOMAIN issued : LockPatOf(issued[i]) # lp
+         /\ \A v \in Users : ust[v] = "put" => LockPatOf(ucur[v]) # lp
+
 UBegin(u, op) ==
     /\ ust[u] = "idle" /\ nextRid <= MaxOps
+    /\ DistinctPatterns => FreshPattern(op)
     /\ (OneQueryPerCmd /\ P!IsMisc(op.k)) => \A i \in DOMAIN oneShots : oneShots[i].cmd # P!CmdOf(op.k)
     /\ LET rid == nextRid
            exc == ExcOf(op)
@@ -136,7 +153,7 @@ UBegin(u, op) ==
                               THEN Append(oneShots, [cmd |-> P!CmdOf(op.k), p |-> op.p, rid |-> rid])
                               ELSE oneShots
                /\ UNCHANGED gots
-    /\ UNCHANGED <<cf, replyCb, dcb, reqQ, upc, cur, waitLock, lockPat, devq, dval, dstored, inq, dpc, snap, dpk,
+    /\ UNCHANGED <<ndup, cf, replyCb, dcb, reqQ, upc, cur, waitLock, lockPat, devq, dval, dstored, inq, dpc, snap, dpk,
                    cache, nnotif, issued, wire, down, rxs>>
 
 UPut(u) ==
@@ -146,7 +163,7 @@ UPut(u) ==
     /\ calls' = [i \in DOMAIN calls |-> IF calls[i].rid = ucur[u].rid THEN [calls[i] EXCEPT !.done = TRUE] ELSE calls[i]]
     /\ ust' = [ust EXCEPT ![u] = "idle"]
     /\ ucur' = [ucur EXCEPT ![u] = NoReq]
-    /\ UNCHANGED <<cf, replyCb, dcb, oneShots, upc, cur, waitLock, lockPat, devq, dval, dstored, inq, dpc, snap, dpk,
+    /\ UNCHANGED <<ndup, cf, replyCb, dcb, oneShots, upc, cur, waitLock, lockPat, devq, dval, dstored, inq, dpc, snap, dpk,
                    cache, nextRid, nnotif, wire, down, rxs, gots>>
 
 \* ------------------------------------------------------------------ updater thread
@@ -156,18 +173,18 @@ UpdGet ==
        THEN cur' = reqQ[Len(reqQ)] /\ reqQ' = SubSeq(reqQ, 1, Len(reqQ) - 1)
        ELSE cur' = Head(reqQ) /\ reqQ' = Tail(reqQ)
     /\ upc' = "lock"
-    /\ UNCHANGED <<cf, replyCb, dcb, ust, ucur, oneShots, waitLock, lockPat, devq, dval, dstored, inq, dpc, snap, dpk,
+    /\ UNCHANGED <<ndup, cf, replyCb, dcb, ust, ucur, oneShots, waitLock, lockPat, devq, dval, dstored, inq, dpc, snap, dpk,
                    cache, nextRid, nnotif, calls, issued, wire, down, rxs, gots>>
 
 UpdLock ==
     /\ upc = "lock" /\ (~waitLock \/ Bug = "noWait")
     /\ waitLock' = TRUE
-    /\ lockPat' = IF cur.chan = 3 THEN SubSeq(cur.data, 1, 3) ELSE SubSeq(cur.data, 1, 2)
+    /\ lockPat' = LockPatOf(cur)
     /\ replyCb' = IF cur.chan = 3 /\ ~PreFix
                    THEN [cmd |-> cur.data[1], p |-> P!IdOf(SubSeq(cur.data, 2, 3)), rid |-> cur.rid]
                    ELSE replyCb                    \* (read/write requests leave _reply_callback alone)
     /\ upc' = "send"
-    /\ UNCHANGED <<cf, dcb, ust, ucur, oneShots, reqQ, cur, devq, dval, dstored, inq, dpc, snap, dpk, cache,
+    /\ UNCHANGED <<ndup, cf, dcb, ust, ucur, oneShots, reqQ, cur, devq, dval, dstored, inq, dpc, snap, dpk, cache,
                    nextRid, nnotif, calls, issued, wire, down, rxs, gots>>
 
 NAns == Cardinality({i \in DOMAIN down : down[i].kind = "ans"})
@@ -177,13 +194,13 @@ UpdSend ==
     /\ wire' = Append(wire, [chan |-> cur.chan, data |-> cur.data, nans |-> NAns])
     /\ devq' = Append(devq, [chan |-> cur.chan, data |-> cur.data, w |-> Len(wire) + 1])
     /\ upc' = "unlock"
-    /\ UNCHANGED <<cf, replyCb, dcb, ust, ucur, oneShots, reqQ, cur, waitLock, lockPat, dval, dstored, inq, dpc, snap,
+    /\ UNCHANGED <<ndup, cf, replyCb, dcb, ust, ucur, oneShots, reqQ, cur, waitLock, lockPat, dval, dstored, inq, dpc, snap,
                    dpk, cache, nextRid, nnotif, calls, issued, down, rxs, gots>>
 
 UpdDone ==
     /\ upc = "unlock"
     /\ upc' = "get" /\ cur' = NoReq
-    /\ UNCHANGED <<cf, replyCb, dcb, ust, ucur, oneShots, reqQ, waitLock, lockPat, devq, dval, dstored, inq, dpc, snap,
+    /\ UNCHANGED <<ndup, cf, replyCb, dcb, ust, ucur, oneShots, reqQ, waitLock, lockPat, devq, dval, dstored, inq, dpc, snap,
                    dpk, cache, nextRid, nnotif, calls, issued, wire, down, rxs, gots>>
 
 \* ------------------------------------------------------------------ device (firmware twin)
@@ -211,7 +228,7 @@ DevAnswer ==
           /\ inq' = Append(inq, [chan |-> q.chan, data |-> rdata])
           /\ down' = Append(down, [kind |-> "ans", chan |-> q.chan, data |-> rdata, w |-> q.w])
     /\ devq' = Tail(devq)
-    /\ UNCHANGED <<cf, replyCb, dcb, ust, ucur, oneShots, reqQ, upc, cur, waitLock, lockPat, dpc, snap, dpk, cache,
+    /\ UNCHANGED <<ndup, cf, replyCb, dcb, ust, ucur, oneShots, reqQ, upc, cur, waitLock, lockPat, dpc, snap, dpk, cache,
                    nextRid, nnotif, calls, issued, wire, rxs, gots>>
 
 DevNotify(n) ==
@@ -221,8 +238,16 @@ DevNotify(n) ==
     /\ LET data == <<1>> \o P!IdBytes(n.p) \o n.v IN
        /\ inq' = Append(inq, [chan |-> 3, data |-> data])
        /\ down' = Append(down, [kind |-> "ntf", chan |-> 3, data |-> data, w |-> 0])
-    /\ UNCHANGED <<cf, replyCb, dcb, ust, ucur, oneShots, reqQ, upc, cur, waitLock, lockPat, devq, dstored, dpc, snap, dpk,
+    /\ UNCHANGED <<ndup, cf, replyCb, dcb, ust, ucur, oneShots, reqQ, upc, cur, waitLock, lockPat, devq, dstored, dpc, snap, dpk,
                    cache, nextRid, calls, issued, wire, rxs, gots>>
+
+DevDup(i) ==
+    /\ ndup < MaxDup /\ i \in DOMAIN down /\ down[i].kind = "ans"
+    /\ ndup' = ndup + 1
+    /\ inq' = Append(inq, [chan |-> down[i].chan, data |-> down[i].data])
+    /\ down' = Append(down, [kind |-> "dup", chan |-> down[i].chan, data |-> down[i].data, w |-> down[i].w])
+    /\ UNCHANGED <<cf, replyCb, dcb, ust, ucur, oneShots, reqQ, upc, cur, waitLock, lockPat, devq, dval, dstored, dpc, snap, dpk,
+                   cache, nextRid, nnotif, calls, issued, wire, rxs, gots>>
 
 \* ------------------------------------------------------------------ dispatcher thread
 \* update callbacks in the order the code calls them: per-parameter, per-group, all
@@ -281,7 +306,7 @@ DispRecv ==
        /\ cache' = IF doUpd THEN [cache EXCEPT ![p] = x] ELSE cache
        /\ dpk' = pk
        /\ IF match
-          THEN /\ lockPat' = <<>>
+          THEN /\ lockPat' = IF Bug = "noReset" /\ pk.chan \in {1, 2} THEN lockPat ELSE <<>>
                /\ IF pk.chan = 3 THEN dcb' = replyCb /\ replyCb' = NoCb ELSE UNCHANGED <<dcb, replyCb>>
                /\ snap' = oneShots
                /\ dpc' = "rel"
@@ -292,7 +317,7 @@ DispRecv ==
                /\ rxs' = Append(rxs, [chan |-> pk.chan, data |-> d, upds |-> upds, cbs |-> r.cbs])
                /\ UNCHANGED <<lockPat, snap, dpc, dcb, replyCb>>
     /\ inq' = Tail(inq)
-    /\ UNCHANGED <<cf, ust, ucur, reqQ, upc, cur, waitLock, devq, dval, dstored, nextRid, nnotif,
+    /\ UNCHANGED <<ndup, cf, ust, ucur, reqQ, upc, cur, waitLock, devq, dval, dstored, nextRid, nnotif,
                    calls, issued, wire, down, gots>>
 
 DispRel ==
@@ -302,7 +327,7 @@ DispRel ==
        /\ oneShots' = r.os
        /\ rxs' = [rxs EXCEPT ![Len(rxs)].cbs = OwnCb(dcb, dpk) \o r.cbs]
     /\ dpc' = "recv" /\ snap' = <<>> /\ dcb' = NoCb
-    /\ UNCHANGED <<cf, replyCb, ust, ucur, reqQ, upc, cur, lockPat, devq, dval, dstored, inq, dpk, cache,
+    /\ UNCHANGED <<ndup, cf, replyCb, ust, ucur, reqQ, upc, cur, lockPat, devq, dval, dstored, inq, dpk, cache,
                    nextRid, nnotif, calls, issued, wire, down, gots>>
 
 Next == \/ \E u \in Users, op \in Ops : UBegin(u, op)
@@ -310,6 +335,7 @@ Next == \/ \E u \in Users, op \in Ops : UBegin(u, op)
         \/ UpdGet \/ UpdLock \/ UpdSend \/ UpdDone
         \/ DevAnswer
         \/ \E n \in Notifs : DevNotify(n)
+        \/ \E i \in 1..(MaxOps + MaxNotif + MaxDup) : DevDup(i)
         \/ DispRecv \/ DispRel
 
 Spec == Init /\ [][Next]_vars
@@ -333,5 +359,5 @@ NoWedge == (~ENABLED (UpdGet \/ UpdLock \/ UpdSend \/ UpdDone \/ DevAnswer \/ Di
            => P!EndClause(issued, wire, down, Len(rxs)) = "ok"
 
 TypeOK == /\ upc \in {"get", "lock", "send", "unlock"} /\ dpc \in {"recv", "rel"}
-          /\ Len(reqQ) <= MaxOps /\ Len(inq) <= MaxOps + MaxNotif
+          /\ Len(reqQ) <= MaxOps /\ Len(inq) <= MaxOps + MaxNotif + MaxDup
 =============================================================================
